@@ -24,10 +24,16 @@ try:
         if os.path.exists(demo_src):
             pkgline = [l for l in open(demo_src) if l.startswith("package ")][0].split()[1]
             guess = {"client": "client", "cache": "cache", "server": "server", "updates": "updates", "inmemory": "database/inmemory", "transaction": "database/transaction", "ovsdb": "ovsdb", "mapper": "mapper", "model": "model", "client_test": "client", "server_test": "server", "cache_test": "cache"}.get(pkgline)
-            demo_dir = demo_dir or guess
+            m = re.search(r"go test[^\n]*?\s\./([\w/]+?)/?(?:\s|$|`|\))", meta.get("demo") or "")
+            demo_dir = demo_dir or (m.group(1) if m else None) or guess
+            if demo_dir and not os.path.isdir(f"{wt}/{demo_dir}"):
+                os.makedirs(f"{wt}/{demo_dir}", exist_ok=True)
         if demo_dir and os.path.exists(demo_src):
             shutil.copy(demo_src, f"{wt}/{demo_dir}/zz_demo_test.go")
-            rc0, o0 = sh(f"go test -vet=off -count=1 -run 'Demo|Mutant|demo' ./{demo_dir}/", cwd=wt)
+            names = re.findall(r"^func (Test\w+)\(", open(demo_src).read(), re.M)
+            runre = "^(" + "|".join(names) + ")$" if names else "."
+            race = "-race" if "-race" in (meta.get("demo") or "") else ""
+            rc0, o0 = sh(f"go test -vet=off -count=1 {race} -run '{runre}' ./{demo_dir}/", cwd=wt)
             res["demo_without_patch"] = "pass" if rc0 == 0 else "FAIL"
             if rc0 != 0: res["demo_without_patch_out"] = o0[-800:]
     rc, out = sh(f"git apply {md}/patch.diff", cwd=wt)
@@ -37,7 +43,7 @@ try:
     if "--skip-confirm" not in sys.argv:
         rc, out = sh(f"go build {pk}", cwd=wt); res["builds"] = rc == 0
         if demo_dir and os.path.exists(demo_src):
-            rc1, o1 = sh(f"go test -vet=off -count=1 -run 'Demo|Mutant|demo' ./{demo_dir}/", cwd=wt)
+            rc1, o1 = sh(f"go test -vet=off -count=1 {race} -run '{runre}' ./{demo_dir}/", cwd=wt)
             res["demo_with_patch"] = "fail (as wanted)" if rc1 != 0 else "PASSES (demo does not show the bug)"
             os.remove(f"{wt}/{demo_dir}/zz_demo_test.go")
         rc, out = sh(f"go test -vet=off -count=1 {pk}", cwd=wt); res["existing_tests"] = "pass" if rc == 0 else "FAIL"
